@@ -2,6 +2,7 @@ import Octo.Model.Pump
 import Octo.Props.C04
 import Octo.Props.C13
 import Octo.Model.Trojan
+import Octo.Proofs.Chain
 /-!
 # C01 — the TCP relay is byte-transparent end to end (logic core)
 
@@ -142,6 +143,35 @@ theorem c01_target_close_delivers_all (items_ : List Bytes) :
       simpa [List.append_assoc] using this
 
 end Octo.Pump
+
+namespace Octo.System
+open Octo.Pump
+
+/-- **C01 end to end, both hops, every schedule.**  The application writes `us` and keeps its side
+open; the target answers `ans` and closes.  The client's two pumps, the server's two pumps and the
+link between the hops are polled in *any* order, any number of times (`sched`).  Then at every
+point what the application has received is a prefix of the answer (exactly once, in order,
+unmodified), and the application observes end-of-stream (its sink closed, or the client's flow torn
+down) only after it has received the **complete** answer. -/
+theorem c01_chain_answer_complete (us ans : List Bytes) (sched : List Act) :
+    let c := (answerScenario us ans).runActs sched
+    (∃ t, c.client.down.delivered ++ t = ans) ∧
+      ((c.client.down.sinkClosed = true ∨ c.client.tornDown = true) → c.client.down.delivered = ans) := by
+  have h := runActs_inv ans sched _ (answerScenario_inv us ans)
+  intro c
+  refine ⟨h.cd_good, ?_⟩
+  rintro (hc | ht)
+  · exact h.cd_done hc
+  · exact h.cd_done (h.ctd ht)
+
+/-- not vacuous: a fair schedule does reach the end, with the whole answer delivered -/
+example :
+    let c := (answerScenario [[1, 2], [3]] [[7], [8, 9]]).runActs
+      [.cUp, .link, .sUp, .sDown, .link, .cDown, .cUp, .link, .sUp, .sDown, .link, .cDown, .sDown, .link, .cDown, .cDown]
+    c.client.down.sinkClosed = true ∧ c.client.tornDown = true ∧ c.client.down.delivered = [[7], [8, 9]] ∧
+      c.server.up.delivered = [[1, 2], [3]] := by decide
+
+end Octo.System
 
 namespace Octo
 
